@@ -41,8 +41,14 @@ type Node struct {
 	Max  int // memcache/proxy: bytes; diskpacked: maxFileSize; replica: minWritesForSuccess
 }
 
+// MaxFan is the largest number of children of a shard / replica node that has a model token.
+const MaxFan = 4
+
 // ModelToken renders the node in the Lean driver's prefix notation; leaves of every kind are `mem`
-// (their own refinement is established separately), n-ary nodes must have exactly two children.
+// (their own refinement is established separately).  overlay and cond have exactly two children;
+// shard and replica have 2..MaxFan: two children keep the tokens `shard2` / `replica2` (older replay
+// files stay valid), more are `shardN <n> <kid0> … <kid n-1>` / `replicaN <n> …`, which the driver
+// builds as the right-nested tree of two-way nodes (Lean: Cfg.shardNest / Cfg.replicaNest).
 func (n *Node) ModelToken() (string, bool) {
 	switch n.Kind {
 	case "localdisk":
@@ -62,13 +68,21 @@ func (n *Node) ModelToken() (string, bool) {
 		c, ok2 := n.Kids[1].ModelToken()
 		return fmt.Sprintf("proxy %d %s %s", n.Max, o, c), ok1 && ok2
 	case "overlay", "shard", "replica", "cond":
-		if len(n.Kids) != 2 {
+		nk := len(n.Kids)
+		if nk < 2 || nk > MaxFan || (nk != 2 && n.Kind != "shard" && n.Kind != "replica") {
 			return "", false
 		}
-		a, ok1 := n.Kids[0].ModelToken()
-		b, ok2 := n.Kids[1].ModelToken()
 		name := map[string]string{"overlay": "overlay", "shard": "shard2", "replica": "replica2", "cond": "cond2"}[n.Kind]
-		return name + " " + a + " " + b, ok1 && ok2
+		if nk != 2 {
+			name = fmt.Sprintf("%sN %d", n.Kind, nk)
+		}
+		ok := true
+		for _, k := range n.Kids {
+			t, okk := k.ModelToken()
+			name += " " + t
+			ok = ok && okk
+		}
+		return name, ok
 	}
 	return "", false
 }
